@@ -232,6 +232,22 @@ def check(run):
     engines.dangling_element_refs(run, [f for f in fx.repo_functions() if f.file.startswith(simlib.REPO_PREFIX)])
     import p01 as _p01
     _p01.accept_scratch_rule(run)
+    run.clause('cancelling or destroying a resolver from inside its own completion handler is safe: on_lookup touches no member after invoking the handler (shared with C14)')
+    import p14 as _p14
+    ninv = 0
+    for f_ in fx.repo_functions():
+        if not f_.file.startswith(simlib.REPO_PREFIX + 'src/') or f_.cfg is None:
+            continue
+        try:
+            has_inv = any(fl_.kind == 'invoke' for fl_ in handlers.flows_in(fx, f_))
+        except Exception:
+            has_inv = False
+        if has_inv:
+            ninv += 1
+            run.touch(f_)
+            _p14.no_member_after_handler(run, f_, 'udp' if 'udp' in f_.name else ('tcp' if 'tcp' in f_.name else 'lib'))
+    if ninv < 8:
+        run.broke('only %d library functions that invoke a handler inline found (9 confirmed by hand: six acceptor closures, queue::incoming_packet, on_lookup x2)' % ninv)
     run.floor('R15', 7)
     run.floor('R5', 7)
     run.floor('R7', 28)
